@@ -201,6 +201,24 @@ def run(ctx):
                 if u.op in ('call', 'phi') and any(isinstance(o, str) and o in O13 for o in ops_) and not (u.callee or '').startswith('@llvm.dbg') and u.bb not in guarded:
                     bad = list(bad) + [(u, 'member address handed on')]
             inst = f'{fn.name}: ec_backends_supported[index] at line {ld.line}'
+            # the slot itself must exist: 0 <= index <= EC_BACKENDS_MAX (the terminator) in the unsigned reading the subscript gets
+            Fi = Facts(P, fn, ld.bb)
+            ei = Fi.norm(idx)
+            ub_u = [int(b_) - (1 if pr_ == 'ult' else 0) for pr_, a_, b_ in Fi.facts if a_ == ei and INT.match(b_) and pr_ in ('ult', 'ule', 'eq')] + \
+                   [int(a_) - (1 if pr_ == 'ugt' else 0) for pr_, a_, b_ in Fi.facts if b_ == ei and INT.match(a_) and pr_ in ('ugt', 'uge')]
+            ub_s = _ub13(P, fn, idx, ld.bb)
+            from ..guards import lower_bound_at as _lb13
+            lo_s = _lb13(P, fn, idx, ld.bb)
+            idd = fn.defs.get(idx)
+            counts_up = idd is not None and idd.op == 'phi' and all(
+                (INT.match(v_) and int(v_) >= 0) or (fn.defs.get(v_) is not None and fn.defs[v_].op == 'add' and idx in fn.defs[v_].ops and '1' in fn.defs[v_].ops) for v_, _ in idd.incoming)
+            in_table = (ub_u and min(ub_u) <= bmax) or (ub_s is not None and ub_s <= bmax and ((lo_s is not None and lo_s >= 0) or counts_up)) or \
+                       (counts_up and (_below_nonnull_prefix(P, fn, idx, ld.bb) or not bad))
+            if not in_table:
+                r.fail(inst + ' exists', func=fn.name, sig=f'backend table subscript unbounded (unsigned <= {min(ub_u) if ub_u else None}, signed <= {ub_s}, >= {lo_s})', loc=ld.loc,
+                       msg=f'ec_backends_supported[index] is read at line {ld.line} with an index that is not confined to 0 .. {bmax}: known bounds are unsigned <= '
+                           f'{min(ub_u) if ub_u else "nothing"}, signed <= {ub_s}, >= {lo_s} - an id with the top bit set passes a signed test and indexes far outside the table')
+                continue
             if not bad:
                 r.ok(inst + (': entry tested for NULL before use' if nsites else ': entry not dereferenced here'), func=fn.name, loc=ld.loc)
                 continue
@@ -248,7 +266,7 @@ def run(ctx):
             # only pure outputs: parameters the function stores to
             stores = [i for i in fn.insts() if i.op == 'store' and strip_ptr_casts(fn, i.ops[1]) == pn]
             loads = [i for i in fn.insts() if i.op == 'load' and strip_ptr_casts(fn, i.ops[0]) == pn]
-            if not stores or not loads or pty != 'i8***':
+            if not stores or not loads or pty not in ('i8***', 'i8**'):
                 continue
             for ld in loads:
                 nro += 1
